@@ -1344,40 +1344,49 @@ pub fn host_filter_gate() -> Value {
 	use tower::{Layer, Service};
 	rt().block_on(async {
 		// (allow-list, Host header, URI, expected status: 200 = passed on)
-		let cases: Vec<(Vec<&str>, Option<&str>, &str, u16)> = vec![
-			(vec!["parity.io:443"], Some("parity.io:443"), "/", 200),
-			(vec!["parity.io:443"], Some("parity.io:444"), "/", 403),
-			(vec!["parity.io:443"], Some("parity.io"), "/", 403),
-			(vec!["parity.io:443"], Some("parity.io:*"), "/", 403),
-			(vec!["parity.io"], Some("parity.io:*"), "/", 403),
-			(vec!["parity.io:*"], Some("parity.io:1234"), "/", 200),
-			(vec!["parity.io:*"], Some("parity.io"), "/", 200),
-			(vec!["parity.io"], Some("parity.io"), "/", 200),
-			(vec!["parity.io"], Some("PARITY.IO"), "/", 403),
-			(vec!["MyNode.local:9944"], Some("MyNode.local:9944"), "/", 200),
-			(vec!["MyNode.local:9944"], Some("mynode.local:9944"), "/", 403),
-			(vec!["*.parity.io"], Some("a.parity.io"), "/", 200),
-			(vec!["*.parity.io"], Some("parity.io"), "/", 403),
-			(vec!["*.parity.io"], Some("evil.io"), "/", 403),
-			(vec!["parity.io", "localhost:9933"], Some("localhost:9933"), "/", 200),
-			(vec!["parity.io", "localhost:9933"], Some("localhost:9934"), "/", 403),
-			(vec!["parity.io:80", "parity.io:81"], Some("parity.io:81"), "/", 200),
-			(vec!["parity.io:80", "parity.io:81"], Some("parity.io:82"), "/", 403),
-			(vec!["parity.io"], None, "/", 400),
-			(vec!["parity.io"], Some("parity.io"), "http://other.io/", 400),
-			(vec!["parity.io"], Some("parity.io"), "http://parity.io/", 200),
-			(vec!["parity.io"], Some("parity.io:99999"), "/", 400),
-			(vec![], Some("parity.io"), "/", 403),
-			(vec![], None, "http://parity.io/", 403),
+		let cases: Vec<(Vec<&str>, Vec<&str>, &str, u16)> = vec![
+			(vec!["parity.io:443"], vec!["parity.io:443"], "/", 200),
+			(vec!["parity.io:443"], vec!["parity.io:444"], "/", 403),
+			(vec!["parity.io:443"], vec!["parity.io"], "/", 403),
+			(vec!["parity.io:443"], vec!["parity.io:*"], "/", 403),
+			(vec!["parity.io"], vec!["parity.io:*"], "/", 403),
+			(vec!["parity.io:*"], vec!["parity.io:1234"], "/", 200),
+			(vec!["parity.io:*"], vec!["parity.io"], "/", 200),
+			(vec!["parity.io"], vec!["parity.io"], "/", 200),
+			(vec!["parity.io"], vec!["PARITY.IO"], "/", 403),
+			(vec!["MyNode.local:9944"], vec!["MyNode.local:9944"], "/", 200),
+			(vec!["MyNode.local:9944"], vec!["mynode.local:9944"], "/", 403),
+			(vec!["*.parity.io"], vec!["a.parity.io"], "/", 200),
+			(vec!["*.parity.io"], vec!["parity.io"], "/", 403),
+			(vec!["*.parity.io"], vec!["evil.io"], "/", 403),
+			(vec!["parity.io", "localhost:9933"], vec!["localhost:9933"], "/", 200),
+			(vec!["parity.io", "localhost:9933"], vec!["localhost:9934"], "/", 403),
+			(vec!["parity.io:80", "parity.io:81"], vec!["parity.io:81"], "/", 200),
+			(vec!["parity.io:80", "parity.io:81"], vec!["parity.io:82"], "/", 403),
+			(vec!["parity.io"], vec![], "/", 400),
+			(vec!["parity.io"], vec!["parity.io"], "http://other.io/", 400),
+			(vec!["parity.io"], vec!["parity.io"], "http://parity.io/", 200),
+			(vec!["parity.io"], vec!["parity.io:99999"], "/", 400),
+			(vec![], vec!["parity.io"], "/", 403),
+			(vec![], vec![], "http://parity.io/", 403),
 			// the authority comes from the request URI only (HTTP/2 :authority, absolute-form target)
-			(vec!["parity.io"], None, "http://parity.io/", 200),
-			(vec!["parity.io:443"], None, "http://parity.io:443/", 200),
-			(vec!["parity.io:443"], None, "http://parity.io:444/", 403),
-			(vec!["parity.io"], None, "http://parity.io:99999/", 400),
-			(vec!["parity.io:*"], None, "http://parity.io:99999/", 400),
-			(vec!["parity.io"], Some("parity.io:99999"), "http://parity.io:99999/", 400),
-			(vec!["parity.io"], Some("not a host"), "http://parity.io/", 200),
-		];
+			(vec!["parity.io"], vec![], "http://parity.io/", 200),
+			(vec!["parity.io:443"], vec![], "http://parity.io:443/", 200),
+			(vec!["parity.io:443"], vec![], "http://parity.io:444/", 403),
+			(vec!["parity.io"], vec![], "http://parity.io:99999/", 400),
+			(vec!["parity.io:*"], vec![], "http://parity.io:99999/", 400),
+			(vec!["parity.io"], vec!["parity.io:99999"], "http://parity.io:99999/", 400),
+			(vec!["parity.io"], vec!["not a host"], "http://parity.io/", 200),
+					// several Host headers: no single authority can be determined
+			(vec!["parity.io"], vec!["parity.io", "evil.io"], "/", 400),
+			(vec!["parity.io"], vec!["evil.io", "parity.io"], "/", 400),
+			(vec!["parity.io"], vec!["parity.io", "parity.io"], "/", 400),
+			// an explicit port 80 is not "the default port" of a scheme-less authority
+			(vec!["parity.io"], vec!["parity.io:80"], "/", 403),
+			(vec!["https://parity.io"], vec!["parity.io:80"], "/", 403),
+			(vec!["http://parity.io"], vec!["parity.io"], "/", 200),
+			(vec!["https://parity.io:443"], vec!["parity.io"], "/", 200),
+];
 		let mut tried = 0;
 		for (allow, host, uri, want) in cases {
 			tried += 1;
@@ -1390,8 +1399,8 @@ pub fn host_filter_gate() -> Value {
 			let layer = match HostFilterLayer::new(allow.clone()) { Ok(l) => l, Err(e) => return json!({"probe":"host_filter_gate","error":format!("allow-list {:?} rejected: {e}", allow)}) };
 			let mut svc = layer.layer(stub);
 			let mut b = http::Request::builder().method("POST").uri(uri);
-			if let Some(h) = host {
-				b = b.header("host", h);
+			for h in &host {
+				b = b.header("host", *h);
 			}
 			let req = b.body(jsonrpsee_server::HttpBody::default()).unwrap();
 			let status = match svc.call(req).await { Ok(rp) => rp.status().as_u16(), Err(_) => 0 };
